@@ -10,7 +10,14 @@
   * `ordered_source`    grammar of paths that denote "the i-th key / the i-th value of a dict, in the dict's own order"
   * `_desugar`          local re-spelling of the flattened function (before and after the inliner): operator-module callables, lambdas,
                         partial, getattr / setattr with literal names, map / filter, loops over constant tables, next()-dispatch ...
-  * `cancel_path`       put into a tuple / record slot or an intermediate container and selected again = the value itself
+  * `cancel_path`       put into a tuple / record slot or an intermediate container (also through zip / enumerate) and selected again =
+                        the value itself
+  * `_flatten_across_modules`  second flattening round: private functions of the modules of already inlined helpers are resolvable
+  * `_Desugar._hoist`   comprehensions / generator helpers with private calls that are consumed inside an expression become
+                        statements of their own (the inliner expands those); `_expression_call`: expression-only helpers are
+                        substituted inside comprehensions; `_table_entry`: TABLE[<literal>](..); `_fixed_arity`: helper(a, *x)
+  * `_read_sites`       live views / iterators / generator expressions bound to a name are read where they are consumed
+  * `crossed_iterations` entries produced inside two nested iterations over the container (cross product)
 """
 from __future__ import annotations
 
@@ -75,8 +82,9 @@ def anchor(repo: Repo, spec: str, fields: Iterable[str] = ()) -> FuncInfo:
                     also.add(name)
     from ..inline import flatten
     cur = _desugar(repo, raw)               # consumers such as map(f, self._helper()) become loops the inliner can expand
-    for _ in range(3):
-        flat = flatten(repo, cur, 4, also or None)
+    for round_ in range(3):
+        # a second round works on code that was copied from helpers of other modules: names are resolved there as well
+        flat = flatten(repo, cur, 4, also or None) if round_ == 0 else _flatten_across_modules(repo, cur, 4, also or None)
         if cur is not raw:
             flat.flat_of = raw
         out = _desugar(repo, flat)
@@ -84,6 +92,54 @@ def anchor(repo: Repo, spec: str, fields: Iterable[str] = ()) -> FuncInfo:
             break
         cur = out
     return _desugar(repo, out, final=True)
+
+
+_xflat_cache: Dict[tuple, tuple] = {}
+
+
+def _flatten_across_modules(repo: Repo, f: FuncInfo, depth: int, also: Optional[Set[str]]) -> FuncInfo:
+    """inline.flatten for a function that is itself the result of flattening: a call of a private module-level function that was
+    copied in from a helper of ANOTHER module (`_shared(..)` is defined / imported there, not in the module of the anchor) is
+    resolved in the modules of the helpers that were inlined before.  For the time of the flattening those names are visible in
+    the anchor's module like an import (`from <home> import _shared`), so every resolution path of the inliner (plain helpers,
+    generators, function values) sees them."""
+    from ..inline import Flattener
+
+    key = (id(repo), f.qn, id(f.node), depth, tuple(sorted(also or ())))
+    if key in _xflat_cache:
+        return _xflat_cache[key][1]
+    homes: List[str] = []
+    for qn in getattr(f, "inlined", []) or []:
+        g = repo.funcs.get(qn) if hasattr(repo, "funcs") else None
+        if g is not None and g.mod.name != f.mod.name and g.mod.name not in homes:
+            homes.append(g.mod.name)
+    local = {n.id for n in ast.walk(f.node) if isinstance(n, ast.Name) and isinstance(n.ctx, (ast.Store, ast.Del))} | set(f.params)
+    wanted: Dict[str, Tuple[str, str]] = {}
+    for c in L.calls_in(f.node):
+        for e in [c.func] + [a for a in c.args if isinstance(a, ast.Name)]:
+            if not isinstance(e, ast.Name):
+                continue
+            name = e.id
+            if name in wanted or name in local or not name.startswith("_") or name.startswith("__") or repo.lookup(f.mod.name, name) is not None:
+                continue
+            hits = set()
+            for h in homes:
+                r = repo.lookup(h, name)
+                if r and r[0] == "func":
+                    hits.add(r[2])
+            if len(hits) == 1:
+                wanted[name] = (hits.pop(), name)
+    imports = f.mod.imports
+    added = [n for n in wanted if n not in imports]
+    try:
+        for n in added:
+            imports[n] = wanted[n]
+        out = Flattener(repo, f, depth, also).run()
+    finally:
+        for n in added:
+            imports.pop(n, None)
+    _xflat_cache[key] = (f, out)
+    return out
 
 
 # --------------------------------------------------------------------------- local desugaring
@@ -218,6 +274,18 @@ class _Subst(ast.NodeTransformer):
         return n
 
 
+class _Rename(ast.NodeTransformer):
+    """rename variables (loads and stores)"""
+
+    def __init__(self, mapping: Dict[str, str]):
+        self.mapping = mapping
+
+    def visit_Name(self, n):
+        if n.id in self.mapping:
+            return ast.copy_location(ast.Name(id=self.mapping[n.id], ctx=n.ctx), n)
+        return n
+
+
 class _FoldTests(ast.NodeTransformer):
     """decide the tests that consist of literals only (after a loop variable was replaced by the entries of a constant table)"""
 
@@ -333,6 +401,8 @@ class _Desugar(ast.NodeTransformer):
     def __init__(self, repo: Repo, f: FuncInfo, final: bool = False):
         self.repo, self.f = repo, f
         self.final = final          # the last pass (after the inliner): set displays / comprehensions are spelled set(..)
+        self._depth = 0
+        self._effects_before = False
         self.changed = False
         self.mods = [f.mod.name]
         for qn in getattr(f, "inlined", []) or []:
@@ -416,6 +486,129 @@ class _Desugar(ast.NodeTransformer):
                 return v            # lookup = mapping.__getitem__ / get = mapping.get
         return None
 
+    def _private_def(self, fn: ast.AST, generator: bool = False) -> Optional[Tuple[ast.FunctionDef, bool]]:
+        """(definition, is a method called on self) of the private repository function / method of the own class that is called"""
+        name = _last_name(fn)
+        if not name or not name.startswith("_") or (name.startswith("__") and name.endswith("__")):
+            return None
+        node, method = None, False
+        if isinstance(fn, ast.Name):
+            if fn.id in self.bound or fn.id in self.comp_bound:
+                return None
+            for m in self.mods:
+                r = self.repo.lookup(m, fn.id)
+                if r:
+                    node = r[1] if r[0] == "func" else None
+                    break
+        elif isinstance(fn, ast.Attribute) and isinstance(fn.value, ast.Name) and self.f.cls and fn.value.id == (self.f.self_name or "self") \
+                and self.bound.get(fn.value.id, 0) <= 1:
+            for c in self.repo.mro(self.f.cls):
+                if c in self.repo.classes and name in self.repo.classes[c].methods:
+                    node = self.repo.classes[c].methods[name]
+                    method = name not in self.repo.classes[c].static
+                    break
+        if not isinstance(node, ast.FunctionDef):
+            return None
+        if any(not (isinstance(d, ast.Name) and d.id == "staticmethod") for d in node.decorator_list):
+            return None
+        if any(isinstance(x, (ast.Await, ast.NamedExpr, ast.Global, ast.Nonlocal)) for x in ast.walk(node)):
+            return None
+        if not generator and any(isinstance(x, (ast.Yield, ast.YieldFrom)) for x in ast.walk(node)):
+            return None
+        return node, method
+
+    def _is_private_generator_call(self, e: ast.AST) -> bool:
+        if not isinstance(e, ast.Call):
+            return False
+        d = self._private_def(e.func, generator=True)
+        return d is not None and any(isinstance(x, (ast.Yield, ast.YieldFrom)) for x in ast.walk(d[0]))
+
+    def _fixed_arity(self, fn: ast.AST) -> Optional[int]:
+        """number of positional parameters of the private helper that is called (only when it has neither defaults nor * / ** /
+        keyword-only parameters: then `f(*x)` passes exactly that many values)"""
+        d = self._private_def(fn)
+        if d is None:
+            return None
+        node, method = d
+        a = node.args
+        if a.vararg or a.kwarg or a.kwonlyargs or a.defaults or a.kw_defaults:
+            return None
+        return len(a.posonlyargs) + len(a.args) - (1 if method else 0)
+
+    def _expression_call(self, n: ast.Call) -> Optional[ast.AST]:
+        """the value of a call of a private helper that only computes an expression (simple assignments of fresh locals, then
+        `return E`), written in terms of the arguments -- used inside comprehensions / generator expressions, where the inliner
+        cannot put statements"""
+        d = self._private_def(n.func)
+        if d is None or any(isinstance(x, ast.Starred) for x in n.args) or any(k.arg is None for k in n.keywords):
+            return None
+        node, method = d
+        a = node.args
+        if a.vararg or a.kwarg or a.posonlyargs and n.keywords:
+            return None
+        params = [x.arg for x in a.posonlyargs + a.args]
+        env: Dict[str, ast.AST] = {}
+        if method:
+            env[params[0]] = n.func.value
+            params = params[1:]
+        if len(n.args) > len(params):
+            return None
+        for p_, x in zip(params, n.args):
+            env[p_] = x
+        kwonly = [x.arg for x in a.kwonlyargs]
+        for k in n.keywords:
+            if k.arg in env or k.arg not in params + kwonly:
+                return None
+            env[k.arg] = k.value
+        defaults = dict(zip(params[len(params) - len(a.defaults):], a.defaults)) if a.defaults else {}
+        defaults.update({x: dv for x, dv in zip(kwonly, a.kw_defaults) if dv is not None})
+        for p_ in params + kwonly:
+            if p_ not in env:
+                if p_ not in defaults or not isinstance(defaults[p_], ast.Constant):
+                    return None
+                env[p_] = defaults[p_]
+        body = list(node.body)
+        if body and isinstance(body[0], ast.Expr) and isinstance(body[0].value, ast.Constant) and isinstance(body[0].value.value, str):
+            body = body[1:]
+        if not body or not isinstance(body[-1], ast.Return) or body[-1].value is None:
+            return None
+        inner_targets = {x.id for c in ast.walk(node) if isinstance(c, ast.comprehension) for x in ast.walk(c.target) if isinstance(x, ast.Name)}
+        inner_targets |= {x.arg for l in ast.walk(node) if isinstance(l, ast.Lambda) for x in ast.walk(l.args) if isinstance(x, ast.arg)}
+        assigned: Set[str] = set()
+
+        def value_of(e):
+            new = _Subst(dict(env)).visit(copy.deepcopy(e))
+            for x in ast.walk(new):
+                if hasattr(x, "_subst"):
+                    del x._subst
+            return new
+
+        for st in body[:-1]:
+            if isinstance(st, ast.Assign) and len(st.targets) == 1:
+                tgt, val = st.targets[0], st.value
+            elif isinstance(st, ast.AnnAssign) and st.value is not None:
+                tgt, val = st.target, st.value
+            else:
+                return None
+            val = value_of(val)
+            if isinstance(tgt, ast.Name):
+                binds = [(tgt.id, val)]
+            elif isinstance(tgt, (ast.Tuple, ast.List)) and all(isinstance(x, ast.Name) for x in tgt.elts):
+                binds = [(x.id, ast.Subscript(value=copy.deepcopy(val), slice=ast.Constant(value=i), ctx=ast.Load())) for i, x in enumerate(tgt.elts)]
+            else:
+                return None
+            for name, bv in binds:
+                if name in assigned or name in env:
+                    return None         # a local that is bound twice / a parameter that is re-bound: not an expression
+                assigned.add(name)
+                env[name] = bv
+        if inner_targets & set(env):
+            return None
+        res = value_of(body[-1].value)
+        if sum(1 for _ in ast.walk(res)) > 400:
+            return None
+        return ast.fix_missing_locations(_relocate(res, n))
+
     def _stable_receiver(self, e: ast.AST) -> bool:
         """a parameter / self / attribute chain on them (the bound method is the same object at the call)"""
         while isinstance(e, ast.Attribute):
@@ -459,6 +652,46 @@ class _Desugar(ast.NodeTransformer):
             # only tables of literals / callables / classes: a display of ordinary run-time values is not a table
             if all(self._is_table_entry(x) for x in e.elts):
                 return list(e.elts)
+        return None
+
+    def _table_entry(self, sub: ast.Subscript) -> Optional[ast.AST]:
+        """TABLE[<literal>] where TABLE is a dict / tuple / list display at module level or in the body of the own class whose
+        selected entry is a callable expression"""
+        ok, key = const_eval(sub.slice)
+        if not ok:
+            return None
+        tbl = None
+        if isinstance(sub.value, ast.Name):
+            tbl = self._global(sub.value.id)
+        elif isinstance(sub.value, ast.Attribute) and isinstance(sub.value.value, ast.Name):
+            owner = sub.value.value.id
+            cls = self.f.cls if owner in (self.f.self_name or "self", "cls") and self.bound.get(owner, 0) <= 1 else (owner if owner in self.repo.classes and owner not in self.bound else None)
+            for c in (self.repo.mro(cls) if cls else []):
+                ci = self.repo.classes.get(c)
+                if ci is None:
+                    continue
+                hits = [b.value for b in ci.node.body if isinstance(b, (ast.Assign, ast.AnnAssign)) and b.value is not None
+                        and any(isinstance(t, ast.Name) and t.id == sub.value.attr for t in (b.targets if isinstance(b, ast.Assign) else [b.target]))]
+                if hits:
+                    tbl = hits[0] if len(hits) == 1 else None
+                    break
+        entry = None
+        if isinstance(tbl, ast.Dict) and all(k is not None for k in tbl.keys):
+            for k, val in zip(tbl.keys, tbl.values):
+                kok, kv = const_eval(k)
+                if not kok:
+                    return None
+                if kv == key and type(kv) is type(key):
+                    entry = val
+        elif isinstance(tbl, (ast.Tuple, ast.List)) and type(key) is int and not any(isinstance(x, ast.Starred) for x in tbl.elts) \
+                and -len(tbl.elts) <= key < len(tbl.elts):
+            entry = tbl.elts[key]
+        if entry is None or not self._closed(entry):
+            return None
+        if isinstance(entry, ast.Lambda) or (isinstance(entry, ast.Call) and _last_name(entry.func) in OPERATOR_FACTORIES + ("partial",)):
+            return entry
+        if isinstance(entry, ast.Name) and entry.id not in self.bound and entry.id not in self.comp_bound:
+            return entry            # a function / class of the module
         return None
 
     def _is_table_entry(self, x: ast.AST) -> bool:
@@ -580,6 +813,33 @@ class _Desugar(ast.NodeTransformer):
             src = n.args[0].value
             n.args = [ast.Subscript(value=copy.deepcopy(src), slice=ast.Constant(value=i), ctx=ast.Load()) for i in range(len(recs[fn.id]))]
             return ast.fix_missing_locations(_relocate(n, n))
+        # TABLE["key"](args) / TABLE[1](args): the entry of a module-level / class-level constant table
+        if isinstance(fn, ast.Subscript):
+            entry = self._table_entry(fn)
+            if entry is not None:
+                self.changed = True
+                n.func = _relocate(copy.deepcopy(entry), fn)
+                return self._simplify_call(n)
+        # helper(..) inside a comprehension / generator expression, when the helper is an expression
+        if self.comp_scope and self._depth < 6:
+            r = self._expression_call(n)
+            if r is not None:
+                self.changed = True
+                self._depth += 1
+                try:
+                    return self.visit(r)
+                finally:
+                    self._depth -= 1
+        # helper(a, *x) where the private helper takes a fixed number of positional parameters -> helper(a, x[0], x[1])
+        if n.args and isinstance(n.args[-1], ast.Starred) and not any(isinstance(x, ast.Starred) for x in n.args[:-1]) \
+                and all(k.arg is not None for k in n.keywords):
+            arity = self._fixed_arity(fn)
+            missing = None if arity is None else arity - (len(n.args) - 1) - len(n.keywords)
+            if missing is not None and 0 < missing <= MAX_UNROLL:
+                self.changed = True
+                src = n.args[-1].value
+                n.args = list(n.args[:-1]) + [ast.Subscript(value=copy.deepcopy(src), slice=ast.Constant(value=i), ctx=ast.Load()) for i in range(missing)]
+                return self._simplify_call(ast.fix_missing_locations(_relocate(n, n)))
         real = self._callable_expr(fn) if isinstance(fn, ast.Name) else fn
         if isinstance(real, ast.Call) and _last_name(real.func) == "partial" and real.args and not any(isinstance(x, ast.Starred) for x in real.args) \
                 and all(k.arg is not None for k in real.keywords):
@@ -638,6 +898,13 @@ class _Desugar(ast.NodeTransformer):
         return n
 
     def _lazy(self, kind: str, fn: ast.AST, its: List[ast.AST], at: ast.AST) -> Optional[ast.AST]:
+        self.comp_scope.append(set())
+        try:
+            return self._lazy_(kind, fn, its, at)
+        finally:
+            self.comp_scope.pop()
+
+    def _lazy_(self, kind: str, fn: ast.AST, its: List[ast.AST], at: ast.AST) -> Optional[ast.AST]:
         load = lambda s: ast.Name(id=s, ctx=ast.Load())
         store = lambda s: ast.Name(id=s, ctx=ast.Store())
         if kind == "filter":
@@ -676,6 +943,145 @@ class _Desugar(ast.NodeTransformer):
         self.generic_visit(n)
         return self._simplify_call(n)
 
+    # ---------------------------------------------------------------- comprehensions that call a private helper
+    # The inliner expands `x = [helper(v) for v in IT]` / `c.update(helper(v) for v in IT)` into loops (so that the helper can be put
+    # in place), but not a comprehension that is consumed in the middle of an expression.  Such a comprehension is evaluated at
+    # this statement anyway (list / set / dict comprehensions are eager, a generator expression handed to an eager consumer is
+    # exhausted by it), so it is moved into a statement of its own right before:
+    #   x = dict(helper(m, v) for v in IT)     ->  t = [helper(m, v) for v in IT]; x = dict(t)
+    #   c.update({helper(v): w for ..})        ->  t = {helper(v): w for ..}; c.update(t)
+    #   for a in (helper(v) for v in IT): B    ->  for v in IT: a = helper(v); B
+    _EAGER_CONSUMERS = ("dict", "list", "tuple", "set", "frozenset", "sorted", "OrderedDict", "deque", "update", "extend", "sum", "any", "all",
+                        "min", "max", "join", "fromkeys", "Counter")
+
+    def _calls_private(self, comp: ast.AST) -> bool:
+        first = comp.generators[0].iter
+        if self._is_private_generator_call(first):
+            return True             # the inliner expands a comprehension over a generator helper when it is a statement of its own
+        skip = {id(x) for x in ast.walk(first)}
+        for x in ast.walk(comp):
+            if isinstance(x, ast.Call) and id(x) not in skip:
+                nm = _last_name(x.func)
+                if nm and nm.startswith("_") and not (nm.startswith("__") and nm.endswith("__")):
+                    return True
+        return False
+
+    def _hoistable(self, e: ast.AST, out: List[Tuple[ast.AST, ast.AST, str]], parent: Optional[ast.AST] = None, fld: str = ""):
+        """(parent node, comprehension, field) of the comprehensions with a private call that are evaluated unconditionally here"""
+        if isinstance(e, ast.Lambda):
+            return
+        if isinstance(e, COMPS):
+            if isinstance(e, ast.GeneratorExp):
+                ok = isinstance(parent, ast.Call) and len(parent.args) == 1 and parent.args[0] is e and not parent.keywords \
+                    and _last_name(parent.func) in self._EAGER_CONSUMERS and _last_name(parent.func) not in self.bound
+            else:
+                ok = parent is not None
+            if ok and not any(g_.is_async for g_ in e.generators) and self._calls_private(e) and not self._effects_before:
+                out.append((parent, e, fld))
+            else:
+                self._hoistable(e.generators[0].iter, out, e, "iter0")
+            return
+        if isinstance(e, ast.Call) and len(e.args) == 1 and not e.keywords and _last_name(e.func) in self._EAGER_CONSUMERS \
+                and _last_name(e.func) not in self.bound and self._is_private_generator_call(e.args[0]):
+            # set(self._gen(..)) -> set(x for x in self._gen(..))
+            v_ = self.fresh()
+            self.comp_bound[v_] = 1
+            gen = ast.GeneratorExp(elt=ast.Name(id=v_, ctx=ast.Load()),
+                                   generators=[ast.comprehension(target=ast.Name(id=v_, ctx=ast.Store()), iter=e.args[0], ifs=[], is_async=0)])
+            e.args[0] = ast.fix_missing_locations(ast.copy_location(gen, e.args[0]))
+            self.changed = True
+        if isinstance(e, ast.BoolOp):
+            self._hoistable(e.values[0], out, e, "values0")
+            return
+        if isinstance(e, ast.IfExp):
+            self._hoistable(e.test, out, e, "test")
+            return
+        # (operands in evaluation order; once a call was evaluated, a later comprehension may not be moved in front of it)
+        kids: List[Tuple[str, ast.AST]] = []
+        for name, val in ast.iter_fields(e):
+            if isinstance(val, ast.AST):
+                kids.append((name, val))
+            elif isinstance(val, list):
+                kids.extend((name, x) for x in val if isinstance(x, ast.AST))
+        if isinstance(e, ast.Dict):
+            kids = [(n_, x) for pair in zip(e.keys, e.values) for n_, x in (("keys", pair[0]), ("values", pair[1])) if x is not None]
+        for name, val in kids:
+            self._hoistable(val, out, e, name)
+            if self._may_have_effects(val, {id(c) for _p, c, _f in out}):
+                self._effects_before = True
+
+    _PURE_FNS = ("set", "list", "dict", "tuple", "frozenset", "sorted", "reversed", "len", "zip", "enumerate", "iter", "map", "filter", "str", "int",
+                 "bool", "float", "repr", "isinstance", "type", "id", "partial", "chain", "starmap", "from_iterable", "attrgetter", "itemgetter",
+                 "methodcaller", "OrderedDict", "deque", "min", "max", "sum", "any", "all", "range", "getattr", "hasattr")
+    _PURE_METHODS = ("items", "keys", "values", "get", "copy", "__getitem__", "union", "intersection", "difference", "issubset", "issuperset",
+                     "format", "join", "split", "strip", "lower", "upper", "startswith", "endswith", "index", "count", "_replace", "_asdict",
+                     "from_iterable")
+
+    def _may_have_effects(self, e: ast.AST, moved: Set[int]) -> bool:
+        """evaluating the expression may change something (the comprehensions in `moved` are evaluated elsewhere)"""
+        if id(e) in moved:
+            return False
+        if isinstance(e, (ast.Yield, ast.YieldFrom, ast.Await, ast.NamedExpr)):
+            return True
+        if isinstance(e, ast.Lambda):
+            return False
+        if isinstance(e, ast.Call):
+            fn = e.func
+            if isinstance(fn, ast.Name):
+                pure = fn.id not in self.bound and (fn.id in self._PURE_FNS or fn.id in self.repo.classes)
+            else:
+                pure = isinstance(fn, ast.Attribute) and fn.attr in self._PURE_METHODS
+            if not pure:
+                return True
+        return any(self._may_have_effects(x, moved) for x in ast.iter_child_nodes(e))
+
+    def _hoist(self, st: ast.stmt, exprs: List[ast.AST]) -> List[ast.stmt]:
+        """the statements that evaluate the hoistable comprehensions of `exprs` (parts of st) into temporaries; st is changed in place"""
+        found: List[Tuple[ast.AST, ast.AST, str]] = []
+        self._effects_before = False
+        for e in exprs:
+            if e is not None:
+                self._hoistable(e, found, st if isinstance(e, COMPS) and not isinstance(e, ast.GeneratorExp) and self._is_value_of(st, e) else None)
+        pre: List[ast.stmt] = []
+        for parent, comp, fld in found:
+            if parent is st:
+                continue            # `x = [helper(v) for ..]`: the inliner expands this form itself
+            tmp = f"ds__h{next(_fresh_counter)}"
+            self.bound[tmp] = 1
+            val = comp
+            if isinstance(comp, ast.GeneratorExp):
+                val = ast.copy_location(ast.ListComp(elt=comp.elt, generators=comp.generators), comp)
+            name = ast.copy_location(ast.Name(id=tmp, ctx=ast.Load()), comp)
+            replaced = False
+            for f_, v_ in ast.iter_fields(parent):
+                if v_ is comp:
+                    setattr(parent, f_, name)
+                    replaced = True
+                elif isinstance(v_, list):
+                    for i, x in enumerate(v_):
+                        if x is comp:
+                            v_[i] = name
+                            replaced = True
+            if not replaced:
+                continue
+            pre.append(ast.fix_missing_locations(ast.copy_location(
+                ast.Assign(targets=[ast.Name(id=tmp, ctx=ast.Store())], value=val, lineno=getattr(st, "lineno", 1)), st)))
+            self.changed = True
+        return pre
+
+    @staticmethod
+    def _is_value_of(st: ast.stmt, e: ast.AST) -> bool:
+        return isinstance(st, (ast.Assign, ast.AnnAssign, ast.Return)) and getattr(st, "value", None) is e
+
+    def _with_hoisted(self, st):
+        """st, preceded by the evaluation of its comprehensions that call private helpers"""
+        if isinstance(st, list):
+            return [y for x in st for y in self._with_hoisted(x)]
+        if isinstance(st, (ast.Assign, ast.AnnAssign, ast.AugAssign, ast.Return, ast.Expr)):
+            pre = self._hoist(st, [st.value])
+            return pre + [st] if pre else [st]
+        return [st]
+
     # ---------------------------------------------------------------- statements
     def _as_loops(self, comp: ast.AST, at: ast.stmt) -> ast.stmt:
         """`E for x in IT if C ..` evaluated for its effects only -> for x in IT: if C: E"""
@@ -711,13 +1117,21 @@ class _Desugar(ast.NodeTransformer):
         self.generic_visit(st)
         if len(st.targets) == 1 and isinstance(st.targets[0], ast.Name) and st.targets[0].id in self.local_once:
             self.local_once[st.targets[0].id] = st.value         # the desugared value
-        return st
+        return self._with_hoisted(st)
 
     def visit_AnnAssign(self, st):
         self.generic_visit(st)
         if isinstance(st.target, ast.Name) and st.target.id in self.local_once and st.value is not None:
             self.local_once[st.target.id] = st.value
-        return st
+        return self._with_hoisted(st)
+
+    def visit_AugAssign(self, st):
+        self.generic_visit(st)
+        return self._with_hoisted(st)
+
+    def visit_Return(self, st):
+        self.generic_visit(st)
+        return self._with_hoisted(st)
 
     def visit_Expr(self, st):
         self.generic_visit(st)
@@ -729,6 +1143,14 @@ class _Desugar(ast.NodeTransformer):
                 self.changed = True
                 tgt = ast.Attribute(value=c.args[0], attr=name, ctx=ast.Store())
                 return ast.fix_missing_locations(ast.copy_location(ast.Assign(targets=[ast.copy_location(tgt, c)], value=c.args[2], lineno=st.lineno), st))
+        if isinstance(c, ast.Call) and _last_name(c.func) == "reduce" and len(c.args) == 3 and not c.keywords and "reduce" not in self.bound \
+                and not any(isinstance(x, ast.Starred) for x in c.args):
+            # reduce(F, IT, init) evaluated for its effects: the inliner spells `x = reduce(..)` as a loop
+            self.changed = True
+            tmp = f"ds__r{next(_fresh_counter)}"
+            self.bound[tmp] = 1
+            new = ast.Assign(targets=[ast.copy_location(ast.Name(id=tmp, ctx=ast.Store()), c)], value=c, lineno=st.lineno)
+            return self._with_hoisted(ast.fix_missing_locations(ast.copy_location(new, st)))
         if isinstance(c, ast.YieldFrom) and isinstance(c.value, ast.IfExp):
             self.changed = True         # yield from (A if c else B)
             mk = lambda x: ast.copy_location(ast.Expr(value=ast.copy_location(ast.YieldFrom(value=x), c)), st)
@@ -746,7 +1168,7 @@ class _Desugar(ast.NodeTransformer):
         if comp is not None and not isinstance(comp.elt, ast.Starred):
             self.changed = True
             return self.visit(self._as_loops(comp, st))
-        return st
+        return self._with_hoisted(st)
 
     # ---------------------------------------------------------------- loops / comprehensions over constant tables
     def _instances(self, target: ast.AST, table: List[ast.AST], parts: List[ast.AST]) -> Optional[List[List[ast.AST]]]:
@@ -773,6 +1195,34 @@ class _Desugar(ast.NodeTransformer):
                 and all(isinstance(x, (ast.Name, ast.Tuple, ast.expr_context)) for x in ast.walk(n.target)):
             self.changed = True         # for _ in (E for ..): pass
             return self.visit(self._as_loops(n.iter, n))
+        if isinstance(n.iter, ast.GeneratorExp) and self._calls_private(n.iter) and not any(g_.is_async for g_ in n.iter.generators) \
+                and (len(n.iter.generators) == 1 or not (n.orelse or _own_jumps(n.body, (ast.Break,)))):
+            # for a in (helper(v) for v in IT if C): BODY  ->  for v in IT: if C: a = helper(v); BODY
+            self.changed = True
+            comp = n.iter
+            k = next(_fresh_counter)
+            names = {x.id for g_ in comp.generators for x in ast.walk(g_.target) if isinstance(x, ast.Name)}
+            ren = _Rename({x: f"{x}__h{k}" for x in names})
+            first = comp.generators[0].iter
+            for g_ in comp.generators:
+                g_.target = ren.visit(g_.target)
+                g_.ifs = [ren.visit(c) for c in g_.ifs]
+                if g_.iter is not first:
+                    g_.iter = ren.visit(g_.iter)
+            for x in names:
+                self.comp_bound.pop(x, None)
+                self.bound[f"{x}__h{k}"] = 1
+            body: List[ast.stmt] = [ast.Assign(targets=[n.target], value=ren.visit(comp.elt), lineno=n.lineno)] + list(n.body)
+            orelse = n.orelse
+            for g_ in reversed(comp.generators):
+                for c in reversed(g_.ifs):
+                    body = [ast.If(test=c, body=body, orelse=[])]
+                body = [ast.For(target=g_.target, iter=g_.iter, body=body, orelse=orelse, lineno=n.lineno)]
+                orelse = []
+            for x in ast.walk(body[0]):
+                if not hasattr(x, "lineno") and isinstance(x, (ast.stmt, ast.expr)):
+                    ast.copy_location(x, n)
+            return ast.fix_missing_locations(ast.copy_location(body[0], n))
         table = self._table(n.iter)
         if table is None or n.orelse or _own_jumps(n.body, (ast.Break,)):
             return n
@@ -927,6 +1377,14 @@ def _desugar(repo: Repo, f: FuncInfo, final: bool = False) -> FuncInfo:
     return out
 
 
+def respelled(repo: Repo, f: FuncInfo) -> FuncInfo:
+    """the (not flattened) function in the plain forms of `_desugar`"""
+    try:
+        return _desugar(repo, f)
+    except Exception:
+        return f
+
+
 # --------------------------------------------------------------------------- records and intermediate containers
 def record_fields(repo: Repo) -> Dict[str, List[str]]:
     """classes of the repository that are plain records (NamedTuple / dataclass / namedtuple(..)): name -> field names in order"""
@@ -996,6 +1454,10 @@ def cancel_path(p: Path, records: Dict[str, List[str]]) -> Optional[Path]:
         if top is None:
             out.append(s)
             continue
+        if top[0] == "wrapped" and s != "elem" and s not in ORDER_PASS:
+            stack.clear()           # zip(..) / enumerate(..) that is not iterated here (dict(zip(a, b)) ..): see L.map_entries
+            out.append(s)
+            continue
         sel = None
         if s.startswith(("unpack:", "item:")) and s.split(":", 1)[1].isdigit():
             sel = int(s.split(":", 1)[1])
@@ -1027,6 +1489,9 @@ def cancel_path(p: Path, records: Dict[str, List[str]]) -> Optional[Path]:
                 kill(top)
                 stack.pop()
                 continue
+            if top[0] == "wrapped":
+                top[0] = "slot"                                              # the tuple that zip / enumerate delivers
+                continue
             if view == "items":
                 top[0], top[1] = "slot", (0 if top[0] == "key" else 1)      # the (key, value) pair of the items view
                 continue
@@ -1037,6 +1502,11 @@ def cancel_path(p: Path, records: Dict[str, List[str]]) -> Optional[Path]:
             continue
         if s in ("call:items", "call:keys", "call:values") and top[0] in ("key", "val") and top[3] is None:
             top[3] = len(out)
+            out.append(s)
+            continue
+        if top[0] == "elt" and top[3] is None and s.startswith("arg") and s.endswith((":zip", ":enumerate")) and s[3:].split(":")[0].isdigit():
+            # the container is zipped / enumerated: its elements are slot i of the tuples that come out
+            top[0], top[1], top[3] = "wrapped", (int(s[3:].split(":")[0]) if s.endswith(":zip") else 1), len(out)
             out.append(s)
             continue
         if s in ORDER_PASS or (s.startswith("arg0:") and s[5:] in _CONTAINER_FNS):
@@ -1240,36 +1710,146 @@ def _filtered_site(v: View, site: ast.AST, value: Optional[ast.AST]) -> Optional
     return None
 
 
+_HAND_ON_FNS = _CONTAINER_FNS + ("zip", "enumerate", "chain", "items", "keys", "values")
+
+
+def _handed_on_names(e: ast.AST) -> Set[str]:
+    """the local containers whose content the expression hands on as it is: x / list(x) / dict(zip(x, y)) / x.items() / x.copy() /
+    Record(field=x).field is not followed (records are cancelled by the provenance view)"""
+    if isinstance(e, ast.Name):
+        return {e.id}
+    if isinstance(e, ast.Starred):
+        return _handed_on_names(e.value)
+    if isinstance(e, ast.Call):
+        name = _last_name(e.func)
+        if isinstance(e.func, ast.Attribute) and name in ("items", "keys", "values", "copy") and not e.args:
+            return _handed_on_names(e.func.value)
+        if name in _HAND_ON_FNS and not (isinstance(e.func, ast.Attribute) and name in ("items", "keys", "values")):
+            out: Set[str] = set()
+            for a in e.args:
+                out |= _handed_on_names(a)
+            return out
+    return set()
+
+
+def _feeding_containers(f: FuncInfo, names: Set[str]) -> Set[str]:
+    """names plus the local containers their content is copied from (x = dict(y); y = tmp ..): an insertion into one of those that
+    does not happen for every element is a filter of what arrives in `names`"""
+    out = set(names)
+    changed = True
+    while changed:
+        changed = False
+        for n in ast.walk(f.node):
+            if isinstance(n, (ast.Assign, ast.AnnAssign)) and n.value is not None:
+                tg = n.targets if isinstance(n, ast.Assign) else [n.target]
+                if any(isinstance(t, ast.Name) and t.id in out for t in tg):
+                    new = _handed_on_names(n.value) - out
+                    if new:
+                        out |= new
+                        changed = True
+    return out
+
+
 def filtered(v: View, site: ast.AST, value: Optional[ast.AST] = None, _depth: int = 0) -> Optional[str]:
     """why the insertion at `site` (inserting `value`: an element, a comprehension, or a local container that is filled elsewhere)
     does not happen for every element; None when it does"""
     why = _filtered_site(v, site, value)
     if why:
         return why
-    if _depth < 3:
-        # the iterables of the enclosing loops: for x in (y for y in ys if c) / for x in filtered_list
-        for lp in v.ancestors(site):
-            if isinstance(lp, ast.For) and lp.iter is not value:
-                why = filtered(v, lp, lp.iter, _depth + 1)
-                if why:
-                    return why
+    def loops_of(at: ast.AST) -> Optional[str]:
+        # the iterables of the enclosing loops: for x in (y for y in ys if c) / for x in filtered_list / for x in iterator
+        if _depth < 3:
+            for lp in v.ancestors(at):
+                if isinstance(lp, ast.For) and lp.iter is not value:
+                    r = filtered(v, lp, lp.iter, _depth + 1)
+                    if r:
+                        return r
+        return None
+
+    why = loops_of(site)
+    if why:
+        return why
     if value is None:
         return None
     locals_ = {n.id for n in ast.walk(value) if isinstance(n, ast.Name) and isinstance(n.ctx, ast.Load)} - set(v.f.params)
     if not locals_:
         return None
-    names = L.aliases(v.f, sorted(locals_))
+    names = _feeding_containers(v.f, L.aliases(v.f, sorted(locals_)))
     for n in ast.walk(v.f.node):
         if isinstance(n, (ast.Assign, ast.AnnAssign)) and n.value is not None:
             tg = n.targets if isinstance(n, ast.Assign) else [n.target]
             if any(isinstance(t, ast.Name) and t.id in names for t in tg):
                 why = _filtered_site(v, n, n.value)
             elif any(isinstance(t, ast.Subscript) and isinstance(t.value, ast.Name) and t.value.id in names for t in tg):
-                why = _filtered_site(v, n, None)
+                why = _filtered_site(v, n, None) or loops_of(n)
         elif isinstance(n, ast.Call) and isinstance(n.func, ast.Attribute) and isinstance(n.func.value, ast.Name) and n.func.value.id in names \
                 and n.func.attr in ELEM_INSERTERS + MAP_INSERTERS + ITEM_INSERTERS:
-            why = _filtered_site(v, n, n.args[0] if n.args and n.func.attr in MAP_INSERTERS else None)
+            why = _filtered_site(v, n, n.args[0] if n.args and n.func.attr in MAP_INSERTERS else None) or loops_of(n)
+        elif isinstance(n, ast.Call) and ((isinstance(n.func, ast.Name) and n.func.id == "next" and n.args and isinstance(n.args[0], ast.Name) and n.args[0].id in names)
+                                          or (isinstance(n.func, ast.Attribute) and n.func.attr in ("__next__", "popleft", "pop", "popitem", "remove", "discard")
+                                              and isinstance(n.func.value, ast.Name) and n.func.value.id in names)):
+            why = "an element is taken out of the iterator / container separately"
         if why:
+            return why
+    return None
+
+
+def _iterates_object(v: View, it: ast.AST, obj: Path) -> bool:
+    """the iterable is the container itself / a view / a copy / a zip or enumerate of it (not one of its elements)"""
+    def whole(step: str) -> bool:
+        return step in ORDER_PASS or step.startswith(ORDER_LOST) or step in ("call:items", "call:keys", "call:values", "arg0:enumerate") \
+            or (step.startswith("arg") and step.endswith((":zip", ":chain", ":zip_longest")))
+    return any(x[:len(obj)] == tuple(obj) and all(whole(s_) for s_ in x[len(obj):]) for x in v.trace(it))
+
+
+def crossed_iterations(v: View, site: ast.AST, value: Optional[ast.AST], obj: Path) -> Optional[str]:
+    """the entries that arrive at the insertion are produced inside TWO nested iterations over the container (a cross product:
+    every name is combined with every type, the last one wins); None when each entry comes from one iteration step"""
+    def binders_around(n: ast.AST) -> int:
+        k = 0
+        prev = n
+        for a in v.ancestors(n):
+            if isinstance(a, ast.For) and prev is not a.iter and _iterates_object(v, a.iter, obj):
+                k += 1
+            elif isinstance(a, COMPS) and not isinstance(prev, ast.comprehension):
+                k += sum(1 for g_ in a.generators if _iterates_object(v, g_.iter, obj))
+            elif isinstance(a, COMPS):
+                k += sum(1 for g_ in a.generators[:a.generators.index(prev)] if _iterates_object(v, g_.iter, obj))
+            prev = a
+        return k
+
+    def at(n: ast.AST, val: Optional[ast.AST]) -> bool:
+        base = binders_around(n)
+        if base >= 2:
+            return True
+        for c in (ast.walk(val) if val is not None else ()):
+            if isinstance(c, COMPS):
+                own = sum(1 for g_ in c.generators if _iterates_object(v, g_.iter, obj))
+                if own and binders_around(c) + own >= 2:
+                    return True
+        return False
+
+    why = "every old name is combined with every old type (nested iterations over the signature)"
+    if at(site, value):
+        return why
+    if value is None:
+        return None
+    locals_ = {n.id for n in ast.walk(value) if isinstance(n, ast.Name) and isinstance(n.ctx, ast.Load)} - set(v.f.params)
+    if not locals_:
+        return None
+    names = _feeding_containers(v.f, L.aliases(v.f, sorted(locals_)))
+    for n in ast.walk(v.f.node):
+        hit = False
+        if isinstance(n, (ast.Assign, ast.AnnAssign)) and n.value is not None:
+            tg = n.targets if isinstance(n, ast.Assign) else [n.target]
+            if any(isinstance(t, ast.Name) and t.id in names for t in tg):
+                hit = at(n, n.value)
+            elif any(isinstance(t, ast.Subscript) and isinstance(t.value, ast.Name) and t.value.id in names for t in tg):
+                hit = at(n, None)
+        elif isinstance(n, ast.Call) and isinstance(n.func, ast.Attribute) and isinstance(n.func.value, ast.Name) and n.func.value.id in names \
+                and n.func.attr in ELEM_INSERTERS + MAP_INSERTERS + ITEM_INSERTERS:
+            hit = at(n, n.args[0] if n.args and n.func.attr in MAP_INSERTERS else None)
+        if hit:
             return why
     return None
 
@@ -1298,6 +1878,65 @@ def _content_reads(v: View, obj: Path) -> List[ast.AST]:
     return out
 
 
+_LAZY_FNS = ("iter", "map", "filter", "zip", "enumerate", "chain", "from_iterable", "reversed", "starmap", "islice", "zip_longest", "partial")
+_LIVE_VIEWS = ("items", "keys", "values", "__iter__")
+
+
+def _read_sites(v: View, read: ast.AST, _depth: int = 0, _seen: Optional[Set[int]] = None) -> List[ast.AST]:
+    """where the content that the expression `read` denotes is really looked at: a dict view (items() / keys() / values()), an
+    iterator, map / filter / zip / chain .. or a generator expression over the container is LIVE -- when it is bound to a local
+    name, the content is read where that name is consumed, not where the lazy value was made"""
+    _seen = set() if _seen is None else _seen
+    top = read
+    while True:
+        par = v.pm.get(top)
+        if isinstance(par, ast.Attribute) and par.value is top and par.attr in _LIVE_VIEWS and isinstance(v.pm.get(par), ast.Call) and v.pm[par].func is par:
+            top = v.pm[par]
+            continue
+        if isinstance(par, ast.Call) and top in par.args and _last_name(par.func) in _LAZY_FNS:
+            top = par
+            continue
+        if isinstance(par, ast.Starred) and par.value is top:
+            top = par
+            continue
+        if isinstance(par, (ast.Tuple, ast.List)) and isinstance(v.pm.get(par), ast.Call) and _last_name(v.pm[par].func) == "from_iterable":
+            top = par
+            continue
+        gen = None
+        cur = top
+        while cur in v.pm and not isinstance(cur, ast.stmt):
+            cur = v.pm[cur]
+            if isinstance(cur, (ast.GeneratorExp, ast.Lambda)):
+                gen = cur               # evaluated when the generator is consumed / the lambda is called
+                break
+        if gen is None:
+            break
+        top = gen
+    if (top is read and _depth == 0) or _depth > 6:
+        return [read]
+    names: List[str] = []
+    if isinstance(par, (ast.Assign, ast.AnnAssign)) and par.value is top:
+        tg = par.targets if isinstance(par, ast.Assign) else [par.target]
+        if all(isinstance(t, ast.Name) for t in tg):
+            names = [t.id for t in tg]
+    if not names:
+        return [read] if top is read else [top]
+    out: List[ast.AST] = []
+    rd = v.p.rd
+    for n in ast.walk(v.f.node):
+        if isinstance(n, ast.Name) and isinstance(n.ctx, ast.Load) and n.id in names and id(n) not in _seen:
+            at = v.node_of(n)
+            src = v.node_of(par)
+            try:
+                reaching = at is None or src is None or src in rd.defs_reaching(at, n.id)
+            except Exception:
+                reaching = True
+            if reaching:
+                _seen.add(id(n))
+                out.extend(_read_sites(v, n, _depth + 1, _seen))
+    return out
+
+
 class Replacement:
     """how `obj` gets its new content in this function"""
 
@@ -1307,6 +1946,26 @@ class Replacement:
         self.inserts = [w for w in self.writes if w.kind in ("rebind", "insert-map", "insert-item", "insert-elem")]
         self.clears = [w for w in self.writes if w.kind == "clear"]
         self.removes = [w for w in self.writes if w.kind == "remove"]
+        # a loop that removes obj[k] for EVERY key k of (a snapshot of) the object, and inserts nothing, empties it like clear()
+        for rm in list(self.removes):
+            if self._removes_every_key(rm):
+                self.removes.remove(rm)
+                self.clears.append(Write("clear", rm.site))
+
+    def _removes_every_key(self, rm: Write) -> bool:
+        v = self.v
+        if rm.key is None or _last_name(getattr(rm.site, "func", None)) in ("popitem", "remove", "discard", "difference_update", "intersection_update"):
+            return False
+        loops = loops_around(v, rm.site)
+        if not loops:
+            return False
+        for w in self.inserts:
+            if w.kind != "rebind" and any(any(l is l2 for l2 in loops) for l in loops_around(v, w.site)):
+                return False            # removal and insertion in one loop: judged by the simultaneity rule
+        keys = [strip_content(x) for x in v.content(rm.key, self.obj, keys=False) if not x[0].startswith(("fresh:", "builtin:"))]
+        if not keys or any(ordered_source(k, self.obj) not in (("key", None),) and (ordered_source(k, self.obj) or ("",))[0] != "reordered" for k in keys):
+            return False
+        return filtered(v, rm.site, None) is None
 
     def sequential(self) -> Optional[Tuple[Write, Write]]:
         """(insertion, removal) on the object inside one loop / comprehension"""
@@ -1345,7 +2004,7 @@ class Replacement:
             if before_ok and not wiped:
                 ok = True
                 # a read of the object after the clear that can still feed an insertion sees the emptied container
-                reads = [v.node_of(r) for r in _content_reads(v, self.obj)]
+                reads = [v.node_of(x) for r in _content_reads(v, self.obj) for x in _read_sites(v, r)]
                 feeds = lambda r: any(i == r or i in C.reachable_from(g, r) for i in ins)
                 if any(r is not None and r in after and feeds(r) for r in reads):
                     return "the old content is read after the container was cleared"
@@ -1360,6 +2019,7 @@ def ordered_source(path: Sequence[str], obj: Path):
          ('key', None)    the keys of the dict / one key per iteration step, in the dict's own order
          ('value', None)  likewise the values
          ('lookup', None) obj[<index>] / obj.get(<index>) / obj.pop(<index>)
+         ('positional', view) list(obj.values())[<index>] / tuple(obj.keys())[<index>]
          ('pair', None)   (key, value) items
          ('object', None) the dict itself
          ('reordered', step) / ('unknown', step)
@@ -1388,6 +2048,8 @@ def ordered_source(path: Sequence[str], obj: Path):
             pass            # L.map_entries: the container is the i-th argument of a zip whose pairs make up a mapping
         elif s in ("item", "call:get", "call:pop", "call:__getitem__") and view is None and not wrappers:
             return ("lookup", None) if i == len(rest) - 1 else ("unknown", rest[i + 1])
+        elif s in ("item", "call:__getitem__") and view in ("values", "keys") and not wrappers and i == len(rest) - 1:
+            return ("positional", view)         # list(obj.values())[<position>]
         elif s == "elem":
             elem = True
             i += 1
